@@ -178,7 +178,7 @@ class C16(Check):
             "Non-trivial = the input is not accepted as a valid program (diagnostics path) or exercises a host context.")
     assumptions = ["`mscript compile <file> --quick` with a 10 s limit per input (4 s for nesting towers in the quick tier)", "inputs < 4 kB", "arbitrary byte soup is not covered"]
     chunksize = 32
-    quick_cap_s = 45
+    quick_cap_s = 300
     thorough_cap_s = 30 * 60
 
     def layers(self, tier):
